@@ -10,7 +10,7 @@ CONSTANTS
   Strict = FALSE
   Mut = "none"
   Driver = "any"
-  MaxSteps = 8
+  MaxSteps = 7
 SPECIFICATION GSpec
 VIEW GView
 INVARIANTS Emit NoErr
